@@ -80,12 +80,18 @@ LINESEARCH_SHAPE_FALLBACK = (
     "return (np.squeeze(fret), p + xi)"
 )
 OPTIMIZE_SHAPE = (
+    # the wrapper with its guard against non-finite parameter vectors (Model/C09Opt.optimizeWrapperG)
     "def cost(tc):\n"
+    "    if not np.all(np.isfinite(tc)):\n"
+    "        return np.inf\n"
     "    Tv.param = tc\n"
     "    return -self._eval(Tv)",
     "fmin, args, kwargs = configure_optimizer(optimizer, fprime=None, fhess=None, **kwargs)",
     "kwargs['callback'] = callback",
-    "Tv.param = fmin(cost, tc0, *args, **kwargs)",
+    "tc = fmin(cost, tc0, *args, **kwargs)\n"
+    "if not np.all(np.isfinite(tc)):\n"
+    "    tc = tc0\n"
+    "Tv.param = tc",
     "return Tv.optimizable",
     "Tv = ChainTransform(T, pre=self._from_affine, post=self._to_inv_affine)",
     "tc0 = Tv.param",
